@@ -225,16 +225,43 @@ def from_str_lemmas(F, rep, rule="C16.6"):
 
 
 class RunsOracles(Oracles):
+    """every input character is of one of four kinds, chosen by an oracle: an ACGT letter (which one stays symbolic), the letter 'N', the
+    letter 'n', or some other non-ACGT character.  The byte tables and comparisons with character constants answer accordingly."""
+    KINDS = ("acgt", "other", "N", "n")
+
+    def kind(self, i):
+        return self.choose("kind%d" % i, self.KINDS)
+
     def on_call(self, it, fn, args, dest_ty, term, caller):
         p = fn.get("path", "")
-        if p == "dna_only_base_to_bits":
+        if p in ("dna_only_base_to_bits", "base_to_bits"):
             i = AcgtOracles.idx_of(args[0])
             if i is None:
                 raise Undecided("unidentified byte")
-            if self.choose("valid%d" % i, (True, False)):
-                return Adt(OPTION, 1, [Int(8, False, bits=[var("c", 2 * i), var("c", 2 * i + 1)] + [ZERO] * 6)])
-            return Adt(OPTION, 0, [])
+            bits = Int(8, False, bits=[var("c", 2 * i), var("c", 2 * i + 1)] + [ZERO] * 6)
+            if self.kind(i) == "acgt":
+                return Adt(OPTION, 1, [bits]) if p == "dna_only_base_to_bits" else bits
+            return Adt(OPTION, 0, []) if p == "dna_only_base_to_bits" else Int(8, False, val=0)
         return NotImplemented
+
+    def unknown_compare(self, it, op, a, b):
+        if op not in ("Eq", "Ne"):
+            return None
+        for x, y in ((a, b), (b, a)):
+            i = AcgtOracles.idx_of(x)
+            if i is not None and isinstance(y, Int) and y.is_conc():
+                k = self.kind(i)
+                c = y.val
+                if k == "acgt":
+                    if chr(c) in "ACGTacgt" if c < 128 else False:
+                        raise Undecided("comparison of an ACGT letter with the constant %r" % chr(c))
+                    eq = False
+                elif k == "other":
+                    eq = False
+                else:
+                    eq = (c == ord(k))
+                return eq if op == "Eq" else not eq
+        return None
 
 
 def dna_only_runs(F, rep, rule="C16.4", maxn=5):
@@ -261,7 +288,8 @@ def dna_only_runs(F, rep, rule="C16.4", maxn=5):
         for a, out, h in explore(mk, run):
             rows += 1
             rep.evaluations += 1
-            pattern = [a.get("valid%d" % i, None) for i in range(n)]
+            pattern = [(a.get("kind%d" % i) == "acgt") if ("kind%d" % i) in a else None for i in range(n)]
+            kinds = [a.get("kind%d" % i, "?") for i in range(n)]
             if isinstance(out, tuple) and out and out[0] in ("inconclusive", "diverge"):
                 problems.append(("%s" % (out,), pattern, out[0] == "inconclusive"))
                 continue
@@ -301,8 +329,8 @@ def dna_only_runs(F, rep, rule="C16.4", maxn=5):
             if not ok:
                 problems.append(("result %r" % (out,), pattern, True))
             elif got != runs:
-                problems.append(("validity pattern %s: returned runs (by input position) %s; the maximal ACGT runs are %s" % (
-                    ["ACGT" if v else "x" for v in pattern], got, runs), pattern, False))
+                problems.append(("input of character kinds %s: returned runs (by input position; None = a base that is not the input's letter) %s; "
+                                 "the maximal ACGT runs are %s" % (kinds, got, runs), pattern, False))
     hard = [p for p in problems if not p[2]]
     if hard:
         rep.violated(rule, "from_dna_only_string", "from_dna_only_string: %s" % hard[0][0], witness={"kind": "row", "row": {"pattern": str(hard[0][1])}, "count": len(hard)})
